@@ -18,7 +18,8 @@ RULE = ("fmtstr(s) and FmtStr.from_str(s) are executed on (a) every string of up
 FLOOR = 1000
 SHARDS = {"thorough": 16}
 ASSUMPTIONS = ["'part of an escape sequence' is decided by construction (tagged generator), not by a second parser",
-               "ordinary numeric CSI = ESC [ digits(;digits)* final-letter (7-bit introducer)"]
+               "ordinary numeric CSI = (ESC [ | 0x9B) parameters final-letter, parameters = ASCII digits and ';' (empty "
+               "parameters allowed, ECMA-48 5.4.2)"]
 
 TOKENS = ["a", " ", "\n", "\x1b", "\x9b", "[", "1", "38", ";", "?", "!", "m", "H", "\x1b[31m", "\x1b["]
 TEXT_ALPHA = ["a", "b", " ", "\n", "[", "m", "1", ";", "?", "~", "一", "\t", "H"]
@@ -42,17 +43,36 @@ def numeric_csi(rng):
     else:
         nums = [rng.choice([0, 1, 2, 5, 10, 24, 80]) for _ in range(rng.randint(0, 2))]
         fin = rng.choice("HABCDJKGfdST")
-    return "\x1b[" + ";".join(map(str, nums)) + fin
+    if nums and rng.random() < .2:
+        # ECMA-48 5.4.2: a parameter may be empty (it then has its default value)
+        nums = list(nums)
+        nums[rng.randrange(len(nums))] = ""
+        if rng.random() < .3:
+            nums.insert(0, "")
+    csi = "\x9b" if rng.random() < .12 else "\x1b["
+    return csi + ";".join(map(str, nums)) + fin
 
 
 def other_escape(rng):
     return rng.choice(["\x1b[?25l", "\x1b[?1049h", "\x1b[?12l\x1b[?25h", "\x1b[>c", "\x1b[1 q",
-                       "\x9b31m", "\x9b2J", "\x1bM", "\x1b7", "\x1b8", "\x1bc", "\x1b(B",
+                       "\x1bM", "\x1b7", "\x1b8", "\x1bc", "\x1b(B",
                        "\x1b[!p", "\x1b[1;2;3;4;5;6;7;8;9;10m", "\x1b[;m", "\x1b[1;;2m", "\x1b[1;m",
                        "\x1b[;1m", "\x1b[31;m", "\x1b[;;m", "\x1b[38m", "\x1b[48;5m", "\x1b[1;38m"])
 
 
-def classify(s, exc=None):
+EMPTY_PARAM = re.compile(r"(?:\x1b\[|\x9b)(?:;|[0-9;]*;;|[0-9;]*;[A-Za-z])")
+NONASCII_DIGIT = re.compile(r"\x1b\[[0-9;]*[^\x00-\x7f]")
+
+
+def classify(s, exc=None, lost=False):
+    if lost and NONASCII_DIGIT.search(s):
+        return "C17:non-ascii-digit-swallowed"
+    if not lost and "\x9b" in s and "\x1b[" not in s:
+        return "C17:8bit-csi-kept"
+    if not lost and EMPTY_PARAM.search(s):
+        return "C17:empty-parameter"
+    if lost:
+        return "C17:text-lost"
     if "\n" in s:
         return "C17:newline"
     return "C17:text"
@@ -85,7 +105,7 @@ def judge(ctx, case, s, text_only=None, exact=False):
                 ctx.judge(False, case, sig, classify(s), text_only, t, name)
                 continue
             if not is_subseq(text_only, t):
-                ctx.judge(False, case, sig, "C17:text-lost", text_only, t, name)
+                ctx.judge(False, case, sig, classify(s, lost=True), text_only, t, name)
                 continue
         ctx.judge(True, case, sig)
 
@@ -141,8 +161,14 @@ def run(ctx):
             r = rng.random()
             if r < .45:
                 pieces.append(["t", "".join(rng.choice(TEXT_ALPHA) for _ in range(rng.randint(0, 3)))])
-            elif r < .9:
+            elif r < .87:
                 pieces.append(["e", numeric_csi(rng)])
+            elif r < .9:
+                # a truncated sequence followed by a character that no escape sequence can hold
+                # (a digit, but not an ASCII one): that character and what follows is text
+                pieces.append(["e", "\x1b["])
+                pieces.append(["t", rng.choice(["٣", "３", "१"]) + "".join(rng.choice(TEXT_ALPHA) for _ in range(rng.randint(0, 3)))])
+                exact = False
             else:
                 pieces.append(["e", other_escape(rng)])
                 exact = False
@@ -166,11 +192,13 @@ def run(ctx):
             run_case(ctx, {"pieces": pieces, "exact": True})
             ctx.count("pygments_samples")
         for s in ["\x1b[m", "a\x1b[mb", "\x1b[38;5;196mred\x1b[0m", "\x1b[2J\x1b[Hhome",
-                  "\x1b[1;31mbold red\x1b[22;39m", "x\x1b[10;20Hy\x1b[Kz"]:
-            text = re.sub(r"\x1b\[[0-9;]*[A-Za-z]", "", s)
+                  "\x1b[1;31mbold red\x1b[22;39m", "x\x1b[10;20Hy\x1b[Kz",
+                  "\x1b[;5Hfoo", "\x1b[;Hfoo", "\x1b[;1mbold\x1b[0m", "\x1b[1;;31mred\x1b[m", "a\x1b[;2Jb",
+                  "\x9b31mfoo\x9b0m", "\x9b2J\x9bHhello", "a\x9b38;5;100mb", "\x9b;5Hfoo\x1b[0m"]:
+            text = re.sub(r"(?:\x1b\[|\x9b)[0-9;]*[A-Za-z]", "", s)
             pieces = []
             pos = 0
-            for m in re.finditer(r"\x1b\[[0-9;]*[A-Za-z]", s):
+            for m in re.finditer(r"(?:\x1b\[|\x9b)[0-9;]*[A-Za-z]", s):
                 if m.start() > pos:
                     pieces.append(["t", s[pos:m.start()]])
                 pieces.append(["e", m.group()])
